@@ -13,7 +13,8 @@ RULE = ("complete enumeration: all 256 byte values (decode, encode, injectivity,
         "'.ascii', '.asciz', 'c and \"cc for each of the 256 table characters (batched, bisected) and '.ascii' / 'c for every BMP "
         "code point outside the table (run alone; must fail with an error); 5 characters x 5 programs (literal / string, in the main file and in "
         "an included file) assembled three times in one process under every ordered pair of 4 output charsets; non-trivial = distinct (code point or byte, route) pair")
-ASSUMPTIONS = ["Python's koi8_r codec is the independent KOI8-R source", "pseudo-graphics block 0x7F-0xBF is only required to be a bijection"]
+ASSUMPTIONS = ["Python's koi8_r codec is the independent KOI8-R source", "pseudo-graphics block 0x7F-0xBF is only required to be a bijection",
+               "U+00A4 (currency sign) is accepted as a second spelling of byte 0x24: the implementation's table lists both glyphs for that byte on purpose (the BK-0010 shows the currency sign where ASCII has '$'); the bijection is demanded of the 256 primary characters"]
 
 
 # the same sources assembled again in one process under another (or the same) output charset: refusal and bytes depend on the
